@@ -3,6 +3,7 @@
   single-factor-spans-all equivalences.
 -/
 import AITB.Props.C14d
+import Mathlib.Tactic.IntervalCases
 
 namespace AITB.Factored
 
@@ -370,5 +371,21 @@ theorem coop_single_basis_is_qlearning (alpha gamma q q1 : Rat) (rew : List Rat)
   rw [coop_sum]
   field_simp
   ring
+
+/-! ## non-vacuity (tests on literals) -/
+def exM : BM := ⟨[0, 1], [0], [[1, 2], [3, 4], [5, 6], [7, 8], [9, 10], [11, 12]]⟩
+def exM2 : BM := ⟨[1], [0], [[1, 0], [0, 1], [2, 2]]⟩
+
+example : exM.WF [2, 3] [2] ∧ exM2.WF [2, 3] [2] := by
+  refine ⟨⟨⟨by decide, by decide⟩, ⟨by decide, by decide⟩, by decide, ?_⟩, ⟨⟨by decide, by decide⟩, ⟨by decide, by decide⟩, by decide, ?_⟩⟩
+  · intro i hi
+    have : i < 6 := hi
+    interval_cases i <;> decide
+  · intro i hi
+    have : i < 3 := hi
+    interval_cases i <;> decide
+example : exM2.tag.Sublist exM.tag ∧ exM2.atag.Sublist exM.atag ∧ sortedContains exM.tag exM2.tag = true := by
+  refine ⟨by decide, by decide, by simp [sortedContains, containsScan, exM, exM2]⟩
+example : exM.get [2, 3] [2] [1, 2] [1] = 12 := by decide
 
 end AITB.Factored
